@@ -174,12 +174,14 @@ theorem C02_unrelated_single (o : ReadOpts) (s : CState) (name : List Char) (v :
   unfold recognisedItem at h
   simp only [Bool.or_eq_false_iff] at h
   obtain ⟨⟨⟨⟨⟨⟨⟨⟨⟨⟨⟨⟨⟨⟨h1, h2⟩, h3⟩, h4⟩, h5⟩, h6⟩, h7⟩, h8⟩, h9⟩, h10⟩, h11⟩, h12⟩, h13⟩, h14⟩, h15⟩ := h
-  show (if o.onlyAtomicCoords then s else stepSingle s name v) = s
+  show (if o.onlyAtomicCoords then s else { s with md := stepSingle s.md name v }) = s
   split
   · rfl
-  · unfold stepSingle
-    simp only [h1, h2, h3, h4, h5, h6, h7, h8, h9, h10, h11, h12, h13, h14, h15, Bool.false_eq_true, if_false,
-      Bool.or_self]
+  · have : stepSingle s.md name v = s.md := by
+      unfold stepSingle
+      simp only [h1, h2, h3, h4, h5, h6, h7, h8, h9, h10, h11, h12, h13, h14, h15, Bool.false_eq_true, if_false,
+        Bool.or_self]
+    rw [this]
 
 /-- … so is every save frame -/
 theorem C02_save_frame_skipped (o : ReadOpts) (s : CState) (n : List Char) (items : List DataItem) :
